@@ -357,6 +357,7 @@ type Act struct {
 	havocCallee *ssa.Function
 	frameCallee *ssa.Function
 	visMode  string
+	curBlock *ssa.BasicBlock
 	pendingExits   []pendingExit
 }
 
@@ -375,6 +376,7 @@ type loopInfo struct {
 	invs   []*loopInv
 	measure []Term
 	visName string
+	visCountHead Term
 	visHead func(x Term) Term
 	visBack func(x Term) Term
 }
